@@ -197,6 +197,7 @@ func describeRev(sc *RevScenario) any {
 		"ocsp_timeout_ms": sc.OCSPTimeout.Milliseconds(), "crl_timeout_ms": sc.CRLTimeout.Milliseconds(),
 		"cancel": []string{"none", "before_call", "at", "deadline", "on_exchange_close"}[sc.Cancel], "cancel_after_ms": sc.CancelAfter.Milliseconds(),
 		"cancel_exchange_selector": sc.CancelXSel, "cancel_prefers_base_crl": sc.CancelXPreferCRL,
+		"sequential_history": sc.Sequential, "gaps_s": gapsSeconds(sc.Gaps), "restarts": sc.Restarts,
 		"panic_at": sc.PanicAt, "panic_cert": sc.PanicCert, "panic_more_certs": sc.PanicCerts, "worlds": ws,
 	}
 }
@@ -300,4 +301,12 @@ func mustJSON(v any) string {
 		return fmt.Sprintf("%q", err.Error())
 	}
 	return string(b)
+}
+
+func gapsSeconds(g []time.Duration) []float64 {
+	var out []float64
+	for _, d := range g {
+		out = append(out, d.Seconds())
+	}
+	return out
 }
